@@ -231,6 +231,9 @@ pub struct Snap {
 	/// payment hashes whose preimage this replica was shown in some delivered transaction, and channels for
 	/// which it was shown a funding spend: knowledge that does not come from the current best chain alone
 	pub know: Vec<String>,
+	/// payment hashes whose preimage this replica was shown in a delivered transaction
+	pub know_preimages: Vec<String>,
+	pub pair_world: bool,
 	/// a channel transaction with >= ANTI_REORG_DELAY confirmations was later reorganised out in this replica
 	pub burial_reorg: bool,
 }
@@ -259,12 +262,27 @@ pub fn compare(a: &Snap, b: &Snap) -> Result<&'static str, (String, String)> {
 		return Ok("reduced:extra-knowledge-from-losing-fork");
 	}
 	cmp!(rel_mon, "relevant-txids-monitor");
+	cmp!(spendable, "spendable-outputs");
+	if a.know_preimages != b.know_preimages {
+		// One replica was shown a preimage in a fork that lost: it legitimately resolves that payment differently
+		// (PaymentSent / claims the inbound HTLC upstream). What the monitor of the channel the preimage appeared on
+		// watches and claims is still expected to be the same; with an upstream channel (forwarding node) the
+		// upstream claim may differ, so the claim sets are only compared for two-node worlds.
+		if a.pair_world {
+			cmp_pursued(a, b)?;
+		}
+		return Ok("partial:preimage-shown-in-losing-fork");
+	}
 	cmp!(rel_mgr, "relevant-txids-manager");
 	cmp!(channels, "channels");
 	cmp!(closed, "closed");
 	cmp!(htlc, "htlc-resolutions");
 	cmp!(balances, "balances");
-	cmp!(spendable, "spendable-outputs");
+	cmp_pursued(a, b)?;
+	Ok("full")
+}
+
+fn cmp_pursued(a: &Snap, b: &Snap) -> Result<(), (String, String)> {
 	if a.pursued != b.pursued {
 		let sa: BTreeSet<&String> = a.pursued.iter().collect();
 		let sb: BTreeSet<&String> = b.pursued.iter().collect();
@@ -277,7 +295,7 @@ pub fn compare(a: &Snap, b: &Snap) -> Result<&'static str, (String, String)> {
 		};
 		return Err((name.to_string(), format!("outputs being claimed: {:?}\n   vs {:?}", a.pursued, b.pursued)));
 	}
-	Ok("full")
+	Ok(())
 }
 
 // -------------------------------------------------------------------------------------------------
@@ -674,6 +692,7 @@ pub struct Runner {
 	rel_txs: HashMap<Txid, Transaction>,
 	max_height_told: u32,
 	know: BTreeSet<String>,
+	know_preimages: BTreeSet<String>,
 	was_buried: HashSet<Txid>,
 	buried_removed: bool,
 	bcast_cur: usize,
@@ -743,6 +762,7 @@ impl Runner {
 			rel_txs: HashMap::new(),
 			max_height_told: 0,
 			know: BTreeSet::new(),
+			know_preimages: BTreeSet::new(),
 			was_buried: HashSet::new(),
 			buried_removed: false,
 			bcast_cur: 0,
@@ -937,7 +957,7 @@ impl Runner {
 								if w.len() == 32 {
 									let h = sha256::Hash::hash(w).to_byte_array();
 									if self.all_hashes.contains(&h) {
-										self.know.insert(format!("preimage-shown {}", vcore::hex(&h)));
+										self.know_preimages.insert(vcore::hex(&h));
 									}
 								}
 							}
@@ -1527,6 +1547,8 @@ impl Runner {
 		peers.sort();
 		s.peers = peers;
 		s.know = self.know.iter().cloned().collect();
+		s.know_preimages = self.know_preimages.iter().cloned().collect();
+		s.pair_world = self.sim.w.n == 2;
 		if self.max_height_told > tip.1 {
 			// conclusions LDK draws from the height alone (an HTLC about to expire upstream is failed back, a
 			// channel with an expired HTLC is closed, a CSV-delayed output matures) are not undone when the tip moves
